@@ -38,7 +38,7 @@ func TestC09(t *testing.T) {
 			return nil
 		}
 		// 1. small containers: every failing position x every offset in the hostile pool x error kinds
-		if e.enumStage("grid", "34 container documents (every member kind, valid and invalid after the failing member) x failing position 0..4 x 28 hostile offsets x 18 error kinds (4 own comparable values, 2 uncomparable/unhashable types (slice- and map-based), 4 typed-nil values (nil pointer / slice / map / func inside a non-nil error interface), 4 standard-library sentinels (io.EOF, io.ErrUnexpectedEOF, context.Canceled, os.ErrNotExist) + 4 library errors obtained by delegating to SkipValue / SkipValueFast / a nested traversal / ReadValue on the member) x {direct, nested}", true) {
+		if e.enumStage("grid", "34 container documents (every member kind, valid and invalid after the failing member) x failing position 0..4 x 28 hostile offsets x 23 error kinds (5 pointer-typed standard-library errors with offset / context fields (*json.SyntaxError, *json.UnmarshalTypeError, *strconv.NumError, *os.PathError, *json.MarshalerError; pointer identity and unchanged contents), 4 own comparable values, 2 uncomparable/unhashable types (slice- and map-based), 4 typed-nil values (nil pointer / slice / map / func inside a non-nil error interface), 4 standard-library sentinels (io.EOF, io.ErrUnexpectedEOF, context.Canceled, os.ErrNotExist) + 4 library errors obtained by delegating to SkipValue / SkipValueFast / a nested traversal / ReadValue on the member) x {direct, nested}", true) {
 			docs := []string{`[1,2,3]`, `["a","b","c"]`, `[[1],[2],[3]]`, `[{"a":1},{"b":2}]`, `[null,true,"x",1.5,[],{}]`, `[1,"a",[2],{"b":3},null]`,
 				`{"a":1,"b":2,"c":3}`, `{"a":"x","b":"y"}`, `{"a":[1],"b":[2]}`, `{"a":{"x":1},"b":{"y":2}}`, `{"a":null,"b":true,"c":"s","d":1e5,"e":[],"f":{}}`,
 				` [ 1 , "a" , [ 2 ] ] `, ` { "a" : 1 , "b" : [ 2 ] } `, `[1,2,`, `[1,2,}`, `["a","b"x`, `{"a":1,"b":2,`, `{"a":"x","b"`, `[[1,2],[3,`, `{"a":[1,2],"b":{`,
